@@ -38,16 +38,19 @@ LenMod(f, i) ==
   ELSE <<"", i>>
 
 (* one printf directive starting at the '%' at index i *)
+\* POSIX numbered arguments: "%N$..." right behind the '%', "*N$" for a width or precision taken from an argument
+\* (the wide family hands its format to libc, which implements them; the narrow formatter refuses '$')
+PosEnd(f, i) == LET j == SkipDigits(f, i) IN IF j > i /\ At(f, j) = 36 THEN j + 1 ELSE i       \* index behind "N$" if there is one at i
 Directive(f, i) ==
-  LET a  == i + 1
+  LET a  == PosEnd(f, i + 1)
       b  == SkipFlags(f, a)
       fl == {f[k] : k \in a..(b - 1)}
       wstar == At(f, b) = 42
-      c  == IF wstar THEN b + 1 ELSE SkipDigits(f, b)
+      c  == IF wstar THEN PosEnd(f, b + 1) ELSE SkipDigits(f, b)
       w  == IF wstar THEN -2 ELSE IF c = b THEN -1 ELSE NumVal(f, b, c, 0)
       hasp == At(f, c) = 46
       pstar == hasp /\ At(f, c + 1) = 42
-      d  == IF ~hasp THEN c ELSE IF pstar THEN c + 2 ELSE SkipDigits(f, c + 1)
+      d  == IF ~hasp THEN c ELSE IF pstar THEN PosEnd(f, c + 2) ELSE SkipDigits(f, c + 1)
       p  == IF ~hasp THEN -1 ELSE IF pstar THEN -2 ELSE NumVal(f, c + 1, d, 0)
       lm == LenMod(f, d)
       cv == At(f, lm[2])
@@ -67,7 +70,7 @@ HasNConv(f) == \E i \in 1..Len(Parse(f)) : IsNConv(Parse(f)[i])
 RECURSIVE SkipSet(_, _)
 SkipSet(f, i) == IF i > Len(f) THEN i ELSE IF f[i] = 93 THEN i + 1 ELSE SkipSet(f, i + 1)
 ScanDirective(f, i) ==
-  LET a == i + 1
+  LET a == PosEnd(f, i + 1)
       sup == At(f, a) = 42
       b == IF sup THEN a + 1 ELSE a
       c == SkipDigits(f, b)
